@@ -9,7 +9,7 @@ Open Scope Z_scope.
 (* exceptions, by class; Unmodelled = the interpreter refuses to give a meaning (outside the
    fragment); OutOfFuel = a `while` loop ran longer than the fuel given *)
 Inductive exn := IndexError | TypeError | ValueError | OverflowError | ZeroDivisionError
-               | RuntimeError | KeyError | ArgumentError | Unmodelled | OutOfFuel.
+               | RuntimeError | KeyError | ArgumentError | AssertionError | Unmodelled | OutOfFuel.
 
 Inductive val : Type :=
 | VNone
@@ -50,6 +50,7 @@ Inductive expr : Type :=
 | EField (a : expr) (i : nat) (name : string)         (* self.name, the i-th field *)
 | ESlice (a : expr) (lo hi : option expr)
 | ECall (f : string) (args : exprs)                    (* a translated or external function *)
+| ECallStar (f : string) (star : expr) (args : exprs)  (* call with the items of star spliced in front of args *)
 | EBuiltin (b : builtin) (args : exprs)
 | EMeth (m : meth) (obj : expr) (args : exprs)
 | EComp (body : expr) (x : string) (iter : expr) (cond : option expr)   (* list comprehension *)
